@@ -28,57 +28,140 @@ SD = "system_dynamics"
 
 
 def _node_name_of_mpo(u: Unit) -> Set[str]:
-    """local names bound to tn.Node(<an MPO tensor>)."""
+    """local names bound to tn.Node(<an MPO tensor>): the argument, with locals replaced by
+    where they come from, mentions an MPO source (parameter pt_mpos, attribute _mpo_tensors,
+    a get_mpo_tensor(..) call)."""
     names = set()
+    du = DefUse(u, CFG(u.node, exc_edges=False))
     for st in walk_local(u.node):
         if isinstance(st, ast.Assign) and isinstance(st.value, ast.Call) and \
                 (dotted(st.value.func) or "").endswith("Node") and st.value.args:
-            a = norm(st.value.args[0])
-            if any(k in a for k in ("mpo", "pt_tensor", "_mpo_tensors", "get_mpo_tensor")):
+            a = origin_text(du, du.node_of(st.value), st.value.args[0])
+            if any(k in a for k in ("pt_mpos", "_mpo_tensors", "get_mpo_tensor")):
                 for t in st.targets:
                     if isinstance(t, ast.Name):
                         names.add(t.id)
     return names
 
 
+def _store_role(t: ast.AST) -> Optional[str]:
+    """Role of an edge by the slot it is stored in / taken from: the last entry of the edge
+    list (or the physical-leg list of the chain) is the system leg, the entry before it the
+    dangling system input of the derivative, the other entries (or the process-tensor leg
+    list of the chain) are bond legs."""
+    if not isinstance(t, ast.Subscript):
+        return None
+    base = dotted(t.value) or ""
+    idx = t.slice
+    neg = isinstance(idx, ast.UnaryOp) and isinstance(idx.op, ast.USub) \
+        and isinstance(idx.operand, ast.Constant)
+    if base.endswith("_phys_es"):
+        return "SYS"
+    if base.endswith("_pt_es"):
+        return "BOND"
+    if base == "current_edges":
+        if neg and idx.operand.value == 1:
+            return "SYS"
+        if neg and idx.operand.value == 2:
+            return "SYS_DANGLING_IN"
+        if neg:
+            return None
+        return "BOND"
+    return None
+
+
 def _leg_roles(u: Unit, node_names: Set[str]) -> Dict[int, Set[str]]:
-    """axis index -> roles inferred from how `node[axis]` is used."""
+    """axis index -> roles inferred from how `node[axis]` is used (what it is connected to,
+    where the edge taken from it is stored) - independent of the names of the locals."""
     roles: Dict[int, Set[str]] = {}
+    du = DefUse(u, CFG(u.node, exc_edges=False))
+    other_nodes = {t.id for st in walk_local(u.node) if isinstance(st, ast.Assign)
+                   and isinstance(st.value, ast.Call) and (dotted(st.value.func) or "").endswith("Node")
+                   for t in st.targets if isinstance(t, ast.Name)} - node_names
 
     def add(ax, r):
         roles.setdefault(ax, set()).add(r)
+
+    def node_axis(e):
+        if isinstance(e, ast.Subscript) and dotted(e.value) in node_names and \
+                isinstance(e.slice, ast.Constant):
+            return e.slice.value
+        return None
     for x in walk_local(u.node):
         # connections  A ^ B
         if isinstance(x, ast.BinOp) and isinstance(x.op, ast.BitXor):
             for side, other in ((x.left, x.right), (x.right, x.left)):
-                if isinstance(side, ast.Subscript) and dotted(side.value) in node_names and \
-                        isinstance(side.slice, ast.Constant):
-                    o = norm(other)
-                    ax = side.slice.value
-                    if "trace_in" in o:
-                        add(ax, "SYS_IN")
-                    elif "trace_out" in o:
-                        add(ax, "SYS_OUT")
-                    elif "trace_square" in o:
-                        add(ax, "SYS_IN")
-                    elif "last_cap" in o or "cap" in o and "[0]" in o:
-                        add(ax, "BOND_FUTURE")
-                    elif o.endswith("[-1]") or "phys" in o or "sys" in o:
-                        add(ax, "SYS_IN")
-                    elif "edges[" in o or "pt_es" in o or "bond" in o:
-                        add(ax, "BOND_PAST")
-        # new edges taken from the node
-        if isinstance(x, ast.Assign) and isinstance(x.value, ast.Subscript) and \
-                dotted(x.value.value) in node_names and isinstance(x.value.slice, ast.Constant):
-            t = norm(x.targets[0])
-            ax = x.value.slice.value
-            if "bond" in t or "pt_es" in t:
-                add(ax, "BOND_FUTURE")
-            elif "sys" in t or "phys" in t or "post_mpo" in t:
-                add(ax, "SYS_OUT")
-            elif "pre_mpo" in t:
-                add(ax, "SYS_IN")
+                ax = node_axis(side)
+                if ax is None:
+                    continue
+                nid = du.node_of(x)
+                # what kind of node is on the other side?  (its direct definitions)
+                o = ""
+                if isinstance(other, ast.Subscript) and isinstance(other.value, ast.Name) \
+                        and nid is not None:
+                    vals = [d.value for d in du.reaching(nid, other.value.id) if d.value is not None]
+                    kinds = set()
+                    for v in vals:
+                        arg = norm(v.args[0]) if isinstance(v, ast.Call) and v.args \
+                            and (dotted(v.func) or "").endswith("Node") else ""
+                        kinds.add(next((k for k in ("_trace_in", "_trace_out", "_trace_square")
+                                        if arg.endswith(k)), "other"))
+                    o = kinds.pop() if len(kinds) == 1 else "other"
+                sr = _store_role(other)
+                if o == "_trace_in":
+                    add(ax, "SYS_IN")
+                elif o == "_trace_out":
+                    add(ax, "SYS_OUT")
+                elif o == "_trace_square":
+                    add(ax, "SYS_IN")
+                elif sr == "SYS":
+                    add(ax, "SYS_IN")
+                elif sr == "BOND":
+                    add(ax, "BOND_PAST")
+                elif o == "other":
+                    add(ax, "BOND_FUTURE")       # the running cap
+        # edges taken from the node: where do they end up?
+        if isinstance(x, ast.Assign) and node_axis(x.value) is not None:
+            ax = node_axis(x.value)
+            for t in x.targets:
+                sr = _store_role(t)
+                if sr == "SYS":
+                    add(ax, "SYS_OUT")
+                elif sr == "BOND":
+                    add(ax, "BOND_FUTURE")
+                elif isinstance(t, ast.Name):
+                    for r in _edge_sinks(u, t.id):
+                        add(ax, r)
     return roles
+
+
+def _edge_sinks(u: Unit, name: str) -> Set[str]:
+    """Roles of the slots an edge held in local `name` is finally stored in (directly, or
+    through a list it is appended to)."""
+    out: Set[str] = set()
+    lists = {dotted(c.func.value) for c in walk_local(u.node) if isinstance(c, ast.Call)
+             and isinstance(c.func, ast.Attribute) and c.func.attr == "append" and c.args
+             and isinstance(c.args[0], ast.Name) and c.args[0].id == name}
+    lists |= {t.id for st in walk_local(u.node) if isinstance(st, ast.Assign)
+              and isinstance(st.value, ast.List)
+              and any(isinstance(e, ast.Name) and e.id == name for e in st.value.elts)
+              for t in st.targets if isinstance(t, ast.Name)}
+    for st in walk_local(u.node):
+        if not isinstance(st, ast.Assign):
+            continue
+        v = st.value
+        direct = isinstance(v, ast.Name) and v.id == name
+        via_list = isinstance(v, ast.Subscript) and dotted(v.value) in lists
+        if direct or via_list:
+            for t in st.targets:
+                sr = _store_role(t)
+                if sr == "SYS":
+                    out.add("SYS_OUT")
+                elif sr == "SYS_DANGLING_IN":
+                    out.add("SYS_IN")
+                elif sr == "BOND":
+                    out.add("BOND_FUTURE")
+    return out
 
 
 WANT = {0: {"BOND_PAST"}, 1: {"BOND_FUTURE"}, 2: {"SYS_IN"}, 3: {"SYS_OUT"}}
@@ -199,10 +282,16 @@ def m3(prog: Program, chk: Check) -> None:
     if len(collected) == 1:
         lst = dotted(collected[0].func.value)
         for (c, o) in guards:
-            if isinstance(o, ast.Compare) and len(o.ops) == 1 and isinstance(o.ops[0], ast.LtE) \
-                    and any(isinstance(y, ast.Name) and y.id == "num_steps" for y in ast.walk(o.left)):
-                # right-hand side in source form: a minimum over the collected list
-                src = c.args[0].comparators[0]
+            if not (isinstance(o, ast.Compare) and len(o.ops) == 1):
+                continue
+            small, big, src = None, None, None
+            if isinstance(o.ops[0], ast.LtE):
+                small, big, src = o.left, o.comparators[0], c.args[0].comparators[0]
+            elif isinstance(o.ops[0], ast.GtE):
+                small, big, src = o.comparators[0], o.left, c.args[0].left
+            if small is not None and any(isinstance(y, ast.Name) and y.id == "num_steps"
+                                         for y in ast.walk(small)):
+                # the bound in source form: a minimum over the collected list
                 e = expand(du, du.node_of(c), src, stop_names={lst})
                 bound_ok = isinstance(e, ast.Call) and (dotted(e.func) or "").split(".")[-1] in (
                     "min", "amin") and any(isinstance(y, ast.Name) and y.id == lst
@@ -292,6 +381,102 @@ def m5(prog: Program, chk: Check) -> None:
 
 
 
+# --------------------------------------------------------------------- M7
+def cap_closings(prog: Program):
+    """[(unit, branch label, {axis: kind}, expected {axis: kind}, site)] for both compute_caps:
+    how the legs of an MPO tensor are closed when the caps are built, per rank branch."""
+    out = []
+    for q in ("process_tensor:SimpleProcessTensor.compute_caps",
+              "process_tensor:FileProcessTensor.compute_caps"):
+        u = prog.unit(q)
+        du = DefUse(u, CFG(u.node, exc_edges=False))
+        names = _node_name_of_mpo(u)
+        if not names:
+            raise AnalysisError(f"M7: no tn.Node(<mpo tensor>) in {q}")
+        conns = []          # (axis, kind, rank branch: 3 / 4 / None)
+        for x in walk_local(u.node):
+            if not (isinstance(x, ast.BinOp) and isinstance(x.op, ast.BitXor)):
+                continue
+            for side, other in ((x.left, x.right), (x.right, x.left)):
+                if not (isinstance(side, ast.Subscript) and dotted(side.value) in names
+                        and isinstance(side.slice, ast.Constant)):
+                    continue
+                nid = du.node_of(x)
+                kind = "cap"
+                if isinstance(other, ast.Subscript) and isinstance(other.value, ast.Name):
+                    vals = [d.value for d in du.reaching(nid, other.value.id) if d.value is not None]
+                    ks = set()
+                    for v in vals:
+                        arg = norm(v.args[0]) if isinstance(v, ast.Call) and v.args \
+                            and (dotted(v.func) or "").endswith("Node") else ""
+                        ks.add(next((k for k in ("_trace_in", "_trace_out", "_trace_square")
+                                     if arg.endswith(k)), "cap"))
+                    kind = ks.pop() if len(ks) == 1 else "cap"
+                rank = None
+                for (t, br) in branch_context(u.node, x):
+                    if isinstance(t, ast.Compare) and len(t.ops) == 1 \
+                            and isinstance(t.ops[0], ast.Eq) and "shape" in norm(t.left) \
+                            and isinstance(t.comparators[0], ast.Constant) \
+                            and t.comparators[0].value in (3, 4):
+                        r = t.comparators[0].value
+                        rank = r if br else (7 - r)
+                conns.append((side.slice.value, kind, rank, x))
+        has_branch = any(r is not None for (_, _, r, _) in conns) or any(
+            isinstance(t, ast.Compare) and "shape" in norm(t.left)
+            and isinstance(t.comparators[0], ast.Constant) and t.comparators[0].value in (3, 4)
+            for st in walk_local(u.node) if isinstance(st, ast.If) for t in [st.test])
+        want3 = {1: "cap", 2: "_trace_square"}
+        want4 = {1: "cap", 2: "_trace_in", 3: "_trace_out"}
+        site = conns[0][3] if conns else None
+        if has_branch:
+            for rank, want in ((3, want3), (4, want4)):
+                got = {ax: k for (ax, k, r, _) in conns if r in (None, rank)}
+                out.append((u, f"rank-{rank} tensors", got, want, site))
+        else:
+            got = {ax: k for (ax, k, r, _) in conns}
+            # without a rank branch the tensor must come from the expanding getter
+            src = [st.value.args[0] for st in walk_local(u.node) if isinstance(st, ast.Assign)
+                   and isinstance(st.value, ast.Call) and (dotted(st.value.func) or "").endswith("Node")
+                   and any(isinstance(t, ast.Name) and t.id in names for t in st.targets)]
+            expanding = all(isinstance(a, ast.Call) and isinstance(a.func, ast.Attribute)
+                            and a.func.attr == "get_mpo_tensor"
+                            and not any(k.arg == "transformed" and isinstance(k.value, ast.Constant)
+                                        and k.value.value is False for k in a.keywords)
+                            and len(a.args) <= 1 for a in src) and bool(src)
+            if not expanding:
+                got = dict(got, source="raw tensors without a rank branch")
+            out.append((u, "tensors expanded to rank 4 by get_mpo_tensor", got, want4, site))
+    return out
+
+
+def m7(prog: Program, chk: Check, rule: str = "M7") -> None:
+    chk.rule(rule, "caps: a rank-4 MPO tensor is closed with (future bond: the later cap, system "
+             "in: trace_in, system out: trace_out), a rank-3 tensor with (the later cap, "
+             "trace_square) - in both compute_caps, for each rank branch; a version without a "
+             "rank branch takes its tensors from the expanding getter", floor=3)
+    for (u, label, got, want, site) in cap_closings(prog):
+        chk.saw(u)
+        chk.add(rule, u, f"{label}: legs closed with {got}", got == want,
+                "" if got == want else
+                f"expected {want}: a cap built otherwise carries a wrong weight, the states "
+                f"before the last step are no longer normalised", site)
+
+
+# --------------------------------------------------------------------- M6
+def m6(prog: Program, chk: Check) -> None:
+    chk.rule("M6", "the tensors of an in-memory process tensor are its own: every setter stores "
+             "an independent copy of the array it is given, so the network that is contracted "
+             "later is the one that was set", floor=3)
+    from rules.c20 import STORE_TABLE, setter_copies
+    sc = setter_copies(prog, [STORE_TABLE[0]])
+    for (mu, st, v, ok) in sc:
+        chk.saw(mu)
+        chk.add("M6", mu, f"{norm(st.targets[0])} = {norm(v)[:50]}", ok,
+                "an independent copy is stored" if ok else
+                "the caller's buffer is stored: refilling a work array per step silently rewrites "
+                "the steps already set and compute_dynamics contracts the wrong network", st)
+
+
 def run(prog: Program, chk: Check) -> None:
     chk.explanation = (
         "Claims C03 IN PART: structural necessary conditions of 'contracting any process tensor "
@@ -310,8 +495,10 @@ def run(prog: Program, chk: Check) -> None:
     chk.assumptions = ["tensornetwork: `a[i] ^ b[j]` connects axis i of a with axis j of b",
                        "leg-role vocabulary of the local names (bond / sys / phys / cap / trace_in "
                        "/ trace_out) confirmed by reading the five consumers"]
-    m1(prog, chk)
-    m2(prog, chk)
-    m3(prog, chk)
-    m4(prog, chk)
-    m5(prog, chk)
+    chk.call(m1, prog, chk)
+    chk.call(m2, prog, chk)
+    chk.call(m3, prog, chk)
+    chk.call(m4, prog, chk)
+    chk.call(m5, prog, chk)
+    chk.call(m6, prog, chk)
+    chk.call(m7, prog, chk)
